@@ -212,10 +212,10 @@ func tmplPart(p string) string {
 	}
 	switch p[0] {
 	case 'B':
-		// round 6: a template that is expensive to PARSE and renders to its own code: B<k> = a dead branch of k*1000 actions
+		// round 6: a template that is expensive to PARSE and renders to its own code: B<k> = a dead branch of k*200 actions (k*1000 made the -race run of a case take > 25 s at load 260: a HANG on the unchanged tree)
 		// followed by the literal text B<k> (the model's rendering of an unknown code is the code itself)
 		if k, err := strconv.Atoi(p[1:]); err == nil && k > 0 && k <= 64 {
-			return "{{if false}}" + strings.Repeat("{{.source}}x", k*1000) + "{{end}}" + p
+			return "{{if false}}" + strings.Repeat("{{.source}}x", k*200) + "{{end}}" + p
 		}
 	case 'c':
 		return p[1:]
